@@ -562,6 +562,52 @@ def parent_links_refreshed(ctx, rule='C05.parent-links-refreshed'):
     return res
 
 
+def separator_refreshed(ctx, rule='C05.separator-refreshed'):
+    """when the merge pass moves a node's data into its RIGHT neighbour (the child chosen with `index + 1`), the neighbour now starts with smaller keys than its
+    separator in the parent says: the pass must refresh that separator (a store into Branch.key) and the neighbour's own record of it (Node.original_key) -- the
+    entries of nested buckets are rewritten later in the same commit by a search that descends by separators"""
+    res = []
+    F = ctx.facts
+    try:
+        (rb,) = ctx.need('rebalance-role')
+    except AnchorError as e:
+        return [unresolved(rule, str(e))]
+    n = 0
+    for g0 in sorted(F.reachable_fns([rb]), key=lambda f: f.path):
+        if g0.kind == 'Closure' or not (g0.self_adt and last_seg(g0.self_adt) == 'InnerBucket'):
+            continue
+        g = ctx.A.xf(g0)
+        merges = [bb for bb, t, c in calls_named(F, g, 'NodeData::merge')]
+        if not merges:
+            continue
+        du = ctx.du(g)
+        right = []
+        for bb, t, c in calls_named(F, g, 'Index::index', 'IndexMut::index_mut'):
+            if 'Branch' not in (c.get('self_ty') or '') or len(t['args']) < 2:
+                continue
+            e = du.sym(t['args'][1])
+            if e[0] == 'bin' and e[1] == 'Add' and any(x == ('const', 1) for x in e[2:]):
+                right.append(bb)
+        n += 1
+        if not right:
+            res.append(ok(rule, '%s merges nodes but never into the right neighbour (no `index + 1` child access)' % g0.qual, sites=len(merges)))
+            continue
+        ks = [(bb, si) for bb, si, st in stores_to_field(g, 'Branch', 'key')]
+        oks = [(bb, si) for bb, si, st in stores_to_field(g, 'Node', 'original_key')]
+        if ks and oks:
+            res.append(ok(rule, '%s merges into the right neighbour (%s) and refreshes its separator (%s) and original key (%s)' % (
+                g0.qual, g.loc(right[0]), g.loc(*ks[0]), g.loc(*oks[0])), sites=len(right)))
+        else:
+            res.append(bad(rule, '%s | right-merge without refreshing the separator' % g0.qual,
+                           '%s moves a node\'s data into its right neighbour (chosen at %s) but %s: the neighbour keeps a separator larger than its first key, a later search for a '
+                           'moved key descends to the wrong leaf, and rewriting a nested bucket\'s entry inserts a duplicate' % (
+                               g0.qual, g.loc(right[0]), 'never stores Branch.key' if not ks else 'never updates the neighbour\'s original_key'), where=g.loc(right[0])))
+    f = floor(rule, 'functions of the rebalance step that merge node data', n, 1)
+    if f:
+        res.append(f)
+    return res
+
+
 def run(ctx, tier):
     results = []
     results += freelist_order(ctx)
@@ -574,9 +620,16 @@ def run(ctx, tier):
     results += free_once(ctx)
     results += freelist_is_set(ctx)
     results += parent_links_refreshed(ctx)
+    results += separator_refreshed(ctx)
     results += c02.reload_rule(ctx, rule='C05.reload')
     import c16
     results += c16.grow(ctx, rule='C05.grow')
+    import c13
+    results += c13.file_lock_clauses(ctx, 'C05')
+    import profile
+    results += profile.debug_pure(ctx, 'C05.debug-pure')
+    import c01
+    results += c01.rebalance_gates(ctx, rule='C05.rebalance-gates')
     import c11
     results += c11.remap_on_success(ctx, rule='C05.remap-on-success')
     _ob = commit.obligations(ctx)
